@@ -218,6 +218,8 @@ MATH = {
     'eq_label': '$ a $ <eq>', 'hash_code': '$ #{ 1 + 2 } $', 'hash_let': '$ #let x = 1; x $', 'hash_call_chain': '$ #a.b(1).c $', 'hash_paren_unit': '$ #(1)x $',
     'field': '$ a.b $', 'ident_call_dot': '$ arrow.r(x) $', 'nested_delim': '$ ((a)) [b (c)] $', 'text_num': '$ 1.5 x 2 $', 'escape': '$ \\$ \\# $',
     'attach_cmt': '$ a_b /* c */ ^d $', 'frac_cmt': '$ a / /* c */ b $', 'delim_cmt_nl': '$ (/* c */\n a) $', 'call_lc': '$ f(a, // c\n b) $', 'call_lc_end': '$ f(a // c\n) $',
+    'delim_bc_before_close': '$ (a + b /* c */) dot [u v /* d */] $', 'delim_bc_after_open': '$ (/* c */ a + b) $', 'delim_lc_before_close': '$ (a + b // c\n) $', 'delim_bc_glued': '$ (a/* c */) {b /* d */ } $',
+    'delim_bc_between': '$ (a /* c */ b) $', 'abs_bc_before_close': '$ |x /* c */| $', 'floor_bc': '$ ⌊ x /* c */ ⌋ $',
     'multi_space': '$ a    b $', 'tab': '$ a\tb $', 'many_nl': '$ a\n\n\n b $',
 }
 
